@@ -130,6 +130,9 @@ def wl_random(ctx, rng, case):
     n = rng.choice([rng.randint(1, 70), rng.choice([7, 8, 9, 15, 16, 17, 31, 32, 33, 63, 64, 65])])
     if case.index % 25 == 3:
         n = rng.choice([255, 256, 257, 1000, 1023, 1024, 1025, 4096, 4097, 5000])  # beyond one machine word / one page of bits
+    if case.index % 50 == 7:
+        n = rng.choice([8184, 8185, 8191, 8192, 8193, 16384, 32768, 65535, 65536, 65537])  # whole KiB blocks of backing bytes
+    huge = n > 6000
     from probables.utilities import Bitarray
 
     ba = Bitarray(n)
@@ -138,7 +141,8 @@ def wl_random(ctx, rng, case):
     ctx.observe("sizes", n)
     ctx.observe("size_mod_8", n % 8)
     compare(ctx, ba, model, "after construction")
-    for _ in range(rng.randint(5, 40)):
+    steps = rng.randint(5, 40) if not huge else 8
+    for stepno in range(steps):
         r = rng.random()
         idx = rng.randint(0, n - 1) if rng.random() < 0.8 else rng.choice([-1, -2, n, n + 1, n + 8, -n, 8 * math.ceil(n / 8)])
         if r < 0.3:
@@ -151,6 +155,8 @@ def wl_random(ctx, rng, case):
             op, val = rng.choice(["check_bit", "is_bit_set", "getitem"]), None
         else:
             op, val, idx = "clear", None, None
+        if huge and stepno in (3, 6):
+            op, val, idx = "clear", None, None  # a clear in the middle of the history of a block-sized array
         case.op(op, idx, val)
         apply(ctx, ba, model, op, idx, val)
     case.nontrivial = len(case.ops) >= 5 and sum(model) >= 0
